@@ -61,6 +61,8 @@ def frag_props():
         fp[fr.name] = set(fr.props)
         for h in fr.inline:
             fp['%s__%s' % (fr.name, h)] = set(fr.props)
+    for fr in genspec.HFRAGS:
+        fp[fr.name] = set(fr.props)
     for name, _rel, _f, _k, props in genspec.CONSTS:
         fp[name] = set(props)
     return fp
